@@ -16,7 +16,7 @@ LEVEL_TEXT = ('Seeded differential runs of the three real optimizer wrappers aga
               'comparison of params, every opt_state leaf and step after every step) with snapshot contracts on the old '
               'functional state and on everything outside `wrt`; plus an exhaustive enumeration of all compositions of '
               'n <= 6 stream items into update() batches for Average / Accuracy / Welford / MultiMetric against float64 '
-              'NumPy statistics. The optimizer space is sampled, the batching space is complete for n <= 6.')
+              'NumPy statistics, and 1e5-example streams split into few large update() calls (count products beyond 2**31). The optimizer space is sampled, the batching space is complete for n <= 6.')
 LEVEL_NOTE = ('Trusts optax (update/apply_updates/init), the un-filtered nnx graph traversal (nnx.state(model), '
               'nnx.iter_graph: C03/C14/C16 territory) used to enumerate Variables, the 15-line wrt predicate evaluator and '
               'the NumPy statistics in vf/props/c17.py, and the JAX compat aliases.')
@@ -1162,10 +1162,80 @@ def run_halfprec_case(ctx, i):
       ctx.check(d2 is None, 'halfprec.opt_state:' + wrapper, lambda: dict(case=desc, diff=d2))
 
 
+BIG_TOL = dict(rtol=2e-3, atol=2e-4)
+
+
+def big_splits(n, j):
+  """Partitions of n stream items into update() calls whose sizes make count products cross 2**31 / 2**32."""
+  third = n // 3
+  return [[n], [n // 2, n - n // 2], [50000, n - 50000], [third, third, n - 2 * third], [1, n - 1], [n - 1, 1],
+          [n - 70000, 70000], [n // 4] * 3 + [n - 3 * (n // 4)], [65536, n - 65536], [4096] * (n // 4096) + ([n % 4096] if n % 4096 else [])][j]
+
+
+def run_bigbatch_case(ctx, i):
+  """Independence of batching at realistic evaluation sizes (1e5 examples per update call): the small-stream enumeration
+  cannot reach integer-width effects in count arithmetic (seeded change C17-b). Non-stationary stream: a drifting mean makes
+  the between-batch term of the parallel variance formula matter."""
+  import jax.numpy as jnp
+  from flax import nnx
+  kind = ['wf', 'avg', 'acc', 'multi'][i % 4]
+  sid = (i // 4) % 3
+  j = (i // 12) % 10
+  after_reset = (i // 120) % 2 == 1
+  n = [120000, 131072, 100003][sid]
+  split = big_splits(n, j)
+  assert sum(split) == n and all(b > 0 for b in split)
+  desc = dict(stream='big', kind=kind, n=n, split=split if len(split) <= 6 else '%dx%d' % (len(split), split[0]), after_reset=after_reset)
+  with ctx.case('bigbatch', i, desc, nontrivial=len(split) >= 2):
+    nprng = np.random.default_rng(ctx.rng('bigbatch', kind, sid).getrandbits(32))
+    t = np.arange(n) / n
+    values = (3.0 * t - 1.0 + 0.8 * np.sin(7 * t) + nprng.normal(0, 0.3, n)).astype(np.float32)
+    logits = nprng.normal(0, 1, (n, 3)).astype(np.float32)
+    labels = np.where(t < 0.5, np.argmax(logits, -1), nprng.integers(0, 3, n)).astype(np.int32)
+    if kind == 'wf':
+      metric = nnx.metrics.Welford()
+    elif kind == 'avg':
+      metric = nnx.metrics.Average()
+    elif kind == 'acc':
+      metric = nnx.metrics.Accuracy()
+    else:
+      metric = nnx.MultiMetric(accuracy=nnx.metrics.Accuracy(), loss=nnx.metrics.Average(), stats=nnx.metrics.Welford('values'))
+    if after_reset:
+      # reset() re-creates the counters (observed: with another integer dtype) - the property must hold afterwards as well
+      metric.update(values=jnp.asarray(values[:7]), logits=jnp.asarray(logits[:7]), labels=jnp.asarray(labels[:7]))
+      metric.reset()
+    pos = 0
+    for b in split:
+      sl = slice(pos, pos + b)
+      metric.update(values=jnp.asarray(values[sl]), logits=jnp.asarray(logits[sl]), labels=jnp.asarray(labels[sl]))
+      ctx.op('metric.update')
+      pos += b
+    res = metric.compute()
+    v64 = values.astype(np.float64)
+    sd = float(np.sqrt(np.mean((v64 - v64.mean()) ** 2)))
+    wf_want = dict(mean=float(v64.mean()), std=sd, sem=sd / float(np.sqrt(n)))
+    acc_want = float(np.mean(np.argmax(logits, -1) == labels))
+    wf_got = lambda s: dict(mean=s.mean, std=s.standard_deviation, sem=s.standard_error_of_mean)  # noqa: E731
+    if kind == 'wf':
+      got, want = wf_got(res), wf_want
+    elif kind == 'avg':
+      got, want = dict(avg=res), dict(avg=float(v64.mean()))
+    elif kind == 'acc':
+      got, want = dict(acc=res), dict(acc=acc_want)
+    else:
+      got = dict(accuracy=res['accuracy'], loss=res['loss'], **{'stats.' + k: v for k, v in wf_got(res['stats']).items()})
+      want = dict(accuracy=acc_want, loss=float(v64.mean()), **{'stats.' + k: v for k, v in wf_want.items()})
+    bad = close(got, want, BIG_TOL)
+    mech = {'wf': 'metric.welford', 'avg': 'metric.average', 'acc': 'metric.accuracy', 'multi': 'metric.multimetric'}[kind]
+    ctx.check(not bad, mech + ':large_batches', lambda: dict(case=desc, diff=bad))
+
+
 def run(ctx):
   quick = ctx.tier == 'quick'
   for i in ctx.indices(45 if quick else 450, 'halfprec'):
     run_halfprec_case(ctx, i)
+  for i in ctx.indices(120 if quick else 240, 'bigbatch'):
+    run_bigbatch_case(ctx, i)
   n_ts = 660 if quick else 4000
   n_opt = 660 if quick else 4400
   n_nnxts = 200 if quick else 1500
